@@ -159,6 +159,9 @@ template <class Format> void DispatchFilterModes(const Config &config, std::istr
 
 int main(int argc, char *argv[]) {
   try {
+    // Read std::cin directly from the descriptor: through C stdio a failed read
+    // of the vocabulary looks exactly like end of input.
+    std::ios::sync_with_stdio(false);
     if (argc < 4) {
       lm::DisplayHelp(argv[0]);
       return 1;
